@@ -47,25 +47,29 @@ theorem step_counter (cfg : Cfg) (m c : Nat) (g : G) (pend : Tid → Bool) (e : 
     CInv m c (step cfg g e).1 (pendNext c g pend e) ∧
     (step cfg g e).1.counter c = g.counter c + incs c [(e, (step cfg g e).2)] := by
   cases e with
-  | loc t op => rw [step_loc]; exact ⟨hI, by simp [incs]⟩
+  | loc t op => rw [step_loc]; split <;> exact ⟨hI, by simp [incs]⟩
   | spawn t v =>
     have hr := step_spawn_rest cfg g t v
     refine ⟨?_, ?_⟩
     · intro t' hp
       have := hI t' hp
-      rw [hr.2.1, hr.2.2.2, hr.2.2.1]
+      rw [hr.2.1, hr.2.2.2.1, hr.2.2.1]
       exact this
     · rw [hr.2.2.1]
       generalize (step cfg g (.spawn t v)).2 = o
       cases o <;> simp [incs]
   | join t u =>
     simp only [step]
-    split
-    · exact ⟨hI, by simp [incs]⟩
-    · split
-      · exact ⟨hI, by simp [incs]⟩
-      · split <;> exact ⟨hI, by simp [incs]⟩
-      · exact ⟨hI, by simp [incs]⟩
+    repeat' split
+    all_goals exact ⟨hI, by simp [incs]⟩
+  | bind t u =>
+    simp only [step]
+    repeat' split
+    all_goals exact ⟨hI, by simp [incs]⟩
+  | rdo t u =>
+    simp only [step]
+    repeat' split
+    all_goals exact ⟨hI, by simp [incs]⟩
   | rd t u => simp only [step]; split <;> exact ⟨hI, by simp [incs]⟩
   | lock t m' =>
     simp only [step]
